@@ -24,7 +24,7 @@ pub fn harnesses() -> Vec<Harness> {
     ]
 }
 
-fn sk(i: u8) -> bls::SecretKey {
+pub(crate) fn sk(i: u8) -> bls::SecretKey {
     let mut b = [0u8; 32];
     b[31] = 7 + i;
     b[30] = 1;
@@ -43,8 +43,24 @@ pub(crate) fn new_ctx() -> Ctx {
     symrt::register_path_reset(shim::reset);
     shim::reset();
     let net = Network::new(self_id());
-    *net.inner.close_peers.borrow_mut() = vec![peer(0), peer(1), peer(2)];
+    // as the real get_closest_k_value_local_peers: self first, then the known peers by increasing XOR distance to self
+    let mut known = vec![peer(1), peer(2)];
+    known.sort_by_key(|p| dist_to_self(*p));
+    let mut close = vec![peer(0)];
+    close.extend(known);
+    *net.inner.close_peers.borrow_mut() = close;
     Ctx { node: crate::node::Node::new(net.clone()), net }
+}
+fn dist_to_self(p: libp2p::PeerId) -> libp2p::kad::KBucketDistance {
+    NetworkAddress::from_peer(peer(0)).distance(&NetworkAddress::from_peer(p))
+}
+/// identities the node has never heard of: one XOR-closer to it than its farthest known close peer, one farther
+/// (neither is "a peer the node knows as close")
+fn strangers() -> (u8, u8) {
+    let farthest_known = [peer(1), peer(2)].into_iter().map(dist_to_self).max().expect("two known peers");
+    let near = (5u8..=250).find(|i| dist_to_self(peer(*i)) < farthest_known).expect("a near stranger");
+    let far = (5u8..=250).find(|i| dist_to_self(peer(*i)) > farthest_known).expect("a far stranger");
+    (near, far)
 }
 fn store_keys(c: &Ctx) -> Vec<Vec<u8>> {
     let mut v: Vec<Vec<u8>> = c.net.inner.store.borrow().keys().map(|k| k.to_vec()).collect();
@@ -82,13 +98,13 @@ pub(crate) const KINDS: [Kind; 4] = [Kind::Chunk, Kind::Scratchpad, Kind::Transa
 fn the_chunk() -> Chunk {
     Chunk::new(Bytes::from(vec![1u8, 2, 3, 4, 5]))
 }
-fn the_pad(counter: Counter) -> Scratchpad {
+pub(crate) fn the_pad(counter: Counter) -> Scratchpad {
     pad_access::make(&sk(1), counter, b"pad-payload", Some(&sk(1)))
 }
-fn the_tx(owner: u8, tag: u8, signer: u8) -> Transaction {
+pub(crate) fn the_tx(owner: u8, tag: u8, signer: u8) -> Transaction {
     Transaction::new(sk(owner).public_key(), vec![], [tag; 32], vec![], &sk(signer))
 }
-fn the_register(owner: u8) -> SignedRegister {
+pub(crate) fn the_register(owner: u8) -> SignedRegister {
     let reg = Register::new(sk(owner).public_key(), XorName([9; 32]), Permissions::new_anyone_can_write());
     let sig = sk(owner).sign(reg.bytes().expect("bytes"));
     SignedRegister::new(reg, sig, StdBTreeSet::new())
@@ -150,7 +166,10 @@ fn c03_paid_put() {
     let now = shim::now_secs();
     // quote 0: ours (or, if self is not a payee, peer 1's); quote 1: another payee
     let k0: u8 = if self_is_payee { 0 } else { 1 };
-    let k1: u8 = if payees_close { 2 } else { 5 }; // peer 5 is not among the close peers
+    // the other payee: a known close peer, or an identity that is not among the close peers -- whether it happens to
+    // be XOR-near to the node or far from it, the node does not *know* it as close
+    let (near_stranger, far_stranger) = strangers();
+    let k1: u8 = if payees_close { 2 } else if choice(2) == 0 { cover("unknown_payee_xor_near"); near_stranger } else { far_stranger };
     let other = XorName([0x77; 32]);
     let mut q0 = quote(k0, if own_quote_for_this_address { target } else { other }, t0);
     let mut q1 = quote(k1, target, t1);
